@@ -35,6 +35,23 @@ package workceptor
 //@   modifies nothing
 //@   ensures FRESHSTATUS: [C19] result != nil && fresh(result) && result.ExtraData == nil
 
+// what every command handler may rely on when it asks a unit for its status: a record, and if that record carries
+// remote data, the data is there (no typed nil).  Stated on the interface, discharged for the two implementations the
+// repository has (BaseWorkUnit, inherited by command/python/kube units, and remoteUnit); other implementations of
+// WorkUnit (plugins) are assumed to do the same.
+//@ iface WorkUnit.Status
+//@   params u
+//@   ensures STATUSRECORD: result != nil && (typeis(result.ExtraData, "*RemoteExtraData") ==> unbox(result.ExtraData, "*RemoteExtraData") != nil)
+//@ func (*BaseWorkUnit).UnredactedStatus
+//@   tags C08
+//@   requires bwu != nil
+//@   modifies nothing
+//@   ensures STATUSRECORD: [C08] result != nil && result.ExtraData == nil
+//@ func (*BaseWorkUnit).Status
+//@   tags C08
+//@   requires bwu != nil
+//@   modifies nothing
+//@   ensures STATUSRECORD: [C08] result != nil && result.ExtraData == nil
 //@ func (*remoteUnit).UnredactedStatus
 //@   tags C19
 //@   requires rw != nil
@@ -48,10 +65,11 @@ package workceptor
 //@   ensures COPY: typeis(result.ExtraData, "*RemoteExtraData") ==> unbox(result.ExtraData, "*RemoteExtraData") != nil && fresh(unbox(result.ExtraData, "*RemoteExtraData")) && fresh(unbox(result.ExtraData, "*RemoteExtraData").RemoteParams) && unbox(result.ExtraData, "*RemoteExtraData").RemoteParams != nil
 
 //@ func (*remoteUnit).Status
-//@   tags C19
+//@   tags C19 C08
 //@   safety
 //@   requires rw != nil
 //@   modifies nothing
+//@   ensures STATUSRECORD: [C08] result != nil && (typeis(result.ExtraData, "*RemoteExtraData") ==> unbox(result.ExtraData, "*RemoteExtraData") != nil)
 //@   loop range ed.RemoteParams
 //@     invariant FRAME1: fresh(keysToDelete) && framemem(keysToDelete)
 //@     invariant ONLYSECRET: forall j int :: 0 <= j && j < len(keysToDelete) ==> isSecret(keysToDelete[j])
@@ -63,9 +81,14 @@ package workceptor
 //@     invariant SHRINK: forall k string :: (k in ed.RemoteParams) ==> atloop(k in ed.RemoteParams)
 //@   ensures REDACTED: typeis(result.ExtraData, "*RemoteExtraData") ==> forall k string :: isSecret(k) ==> !(k in unbox(result.ExtraData, "*RemoteExtraData").RemoteParams)
 
+// reading the error of the last status update changes nothing; two reads without an update in between agree
+//@ iface WorkUnit.LastUpdateError
+//@   params u
+//@   pure
 //@ func (*Workceptor).AllocateRemoteUnit
-//@   tags C19
+//@   tags C19 C08
 //@   requires w != nil
+//@   ensures UNIT: [C08] result.1 == nil ==> result.0 != nil
 //@   loop range params
 //@     invariant NOSECRETYET: !hasSecrets ==> forall k string :: visited(k) ==> !isSecret(k)
 //@   site call AllocateUnit NOSECRETSWITHOUTTLS: [C19] requires tlsClient != "" || forall k string :: (k in params) ==> !isSecret(k)
@@ -129,6 +152,8 @@ package workceptor
 //@   modifies nothing
 //@ func (*workceptorCommand).ControlFunc
 //@   tags C15 C13 C04 C05
+//@   safetytags C04 C08
+//@   safety
 //@   requires c != nil && c.w != nil && cfo != nil && nc != nil && c.w.nc != nil
 //@   loop range c.params
 //@     invariant NOWRITE: !flag("swrote")
@@ -269,8 +294,9 @@ package workceptor
 // AllocateUnit: generation of the ID and its insertion are one critical section under the write lock, the key
 // inserted is the generated ID and it is not yet a key.
 //@ func (*Workceptor).AllocateUnit
-//@   tags C13 C19 C15
+//@   tags C13 C19 C15 C08
 //@   requires w != nil
+//@   ensures UNIT: [C08] result.1 == nil ==> result.0 != nil
 //@   site mapupdate Workceptor.activeUnits UNIQUE: [C13] requires !(key in w.activeUnits) && key == lastcall("generateUnitID", 0) && lastcall("generateUnitID", 1) == nil
 //@        && held(w.activeUnitsLock) == 2 && value == worker && lastcall("Save", 0) == nil
 //@   site call generateUnitID INSIDE: [C13] requires held(w.activeUnitsLock) == 2 && !arg1
